@@ -1,4 +1,5 @@
 import Secp.Proofs.Ecdsa
+import Secp.Props.C03
 /-
   Props/C02 — ECDSA verification accepts exactly the valid signatures.
   Model: `Secp.Model.verifyM` (hand-written mirror of Signature.Verify whose point operations are
@@ -28,5 +29,11 @@ theorem verify_zero (h : Bytes) (Q : Nat × Nat) (r s : Nat) (hz : r = 0 ∨ s =
 
 -- non-vacuity of jacobian_compare's hypotheses
 example : (1 : Nat) < P ∧ (1 : Nat) ≠ 0 ∧ (5 : Nat) < N := by decide
+
+/-! ### unconditional form: `PointSpec` is a theorem (`Secp.Props.C03.pointSpec`, built on C04/C05-level proofs) -/
+
+theorem verify_iff_unconditional (h : Bytes) (x y r s : Nat) (hQ : OnCurve x y) (hr : r < N) (hs : s < N) :
+    verifyM h (x, y) r s = ecdsaVerify h (some (x, y)) r s :=
+  verify_iff Secp.Props.C03.pointSpec h x y r s hQ hr hs
 
 end Secp.Props.C02
